@@ -793,7 +793,7 @@ def genexp_loops(fn) -> int:
         while i < len(body):
             s = body[i]
             i += 1
-            if not (isinstance(s, ast.For) and not s.orelse and isinstance(s.target, ast.Name)):
+            if not (isinstance(s, ast.For) and not s.orelse):
                 continue
             comp = None
             drop = None
@@ -811,6 +811,37 @@ def genexp_loops(fn) -> int:
             gen = comp.generators[0]
             tnames = [n.id for n in ast.walk(gen.target) if isinstance(n, ast.Name)]
             if not (isinstance(comp.elt, ast.Name) and tnames.count(comp.elt.id) == 1):
+                # general element: `for T in (E for t in it if c): B` -> `for t in it: if c: T = E; B`  (t fresh in the function)
+                inside_ = {id(n) for n in ast.walk(comp)}
+                outside_ = {n.id for n in ast.walk(fn) if isinstance(n, ast.Name) and id(n) not in inside_}
+                if isinstance(s.target, ast.Starred):
+                    continue
+                clash = {t_: f"__g{count}_{t_.lstrip('_')}" for t_ in tnames if t_ in outside_ and t_ != "_"}
+                if clash:
+                    # the generator's own variables get fresh names (its first iterable is evaluated outside its scope: untouched)
+                    first_iter = gen.iter
+                    for n in ast.walk(comp):
+                        if isinstance(n, ast.Name) and n.id in clash and not any(n is y for y in ast.walk(first_iter)):
+                            n.id = clash[n.id]
+                bind = ast.Assign(targets=[s.target], value=comp.elt)
+                ast.copy_location(bind, s)
+                inner = [bind] + s.body
+                for c in reversed(gen.ifs):
+                    inner = [ast.If(test=c, body=inner, orelse=[])]
+                new_target = ast_copy(gen.target)
+                for n in ast.walk(new_target):
+                    if isinstance(n, ast.Name):
+                        n.ctx = ast.Store()
+                s.iter = gen.iter
+                s.target = new_target
+                s.body = inner
+                ast.fix_missing_locations(s)
+                if drop is not None:
+                    del body[drop]
+                    i -= 1
+                count += 1
+                continue
+            if not isinstance(s.target, ast.Name):
                 continue
             v = s.target.id
             e = comp.elt.id
@@ -1149,7 +1180,10 @@ def split_chained_assignments(fn) -> int:
                 continue
             names = [t for t in s.targets if isinstance(t, ast.Name)]
             new = []
-            if names:
+            if isinstance(s.value, ast.Constant):
+                for t in s.targets:
+                    new.append(ast.Assign(targets=[t], value=ast_copy(s.value)))
+            elif names:
                 first = names[0]
                 a0 = ast.Assign(targets=[first], value=s.value)
                 new.append(a0)
